@@ -432,7 +432,7 @@ fn run(ctx: &mut Ctx) {
                     ctx.progress_note(&format!("report {root} {follow}"));
                     report(ctx, &cfg, batch);
                 }
-                if job % 997 == 3 {
+                if job % 997 == 3 || ctx.rep.samples.is_empty() {
                     ctx.rep.sample(json!({"find": [format!("-{follow}"), root, "-sorted"], "formats": batch.iter().take(6).map(|f| fmt_text(f)).collect::<Vec<_>>(), "entries": cfg.ents.iter().take(8).map(|e| e.path.clone()).collect::<Vec<_>>()}));
                 }
             }
